@@ -1,5 +1,6 @@
 mod core_pp;
 mod db;
+mod image;
 mod util;
 
 fn arg(args: &[String], name: &str) -> Option<String> {
@@ -30,6 +31,7 @@ fn main() {
             let scale: usize = arg(&args, "--scale").and_then(|s| s.parse().ok()).unwrap_or(1);
             db::run(seed, cases, &mut sink, &focus, nops, big, scale)
         }
+        "image" => image::run(seed, cases, &mut sink, &outdir),
         _ => {
             eprintln!("usage: vharness <core-pp> --seed S --cases N --out DIR");
             std::process::exit(2);
